@@ -1,13 +1,1316 @@
 //go:build verif
 
-// placeholder: harness c03 is being written
+// Harness c03: ECDSA / Ed25519 / RSA-SSA-PKCS1 / RSA-SSA-PSS of tink-go against the independent
+// strict verifier in Lean (property C03).
+//
+// Go signs (keyset handle + signature.NewSigner, signature/subtle, internal/signature); every
+// (key, message, signature) triple and a stream of mutations of it is then judged by Go's verifier
+// (signature.NewVerifier on handle.Public(), subtle verifiers) and by the reference; the two verdicts
+// must agree on every line. Go-side oracles: Sign's output verifies; no byte-different signature is
+// accepted except the documented ECDSA (r, n-s) twin; no other message is accepted.
 package main
 
-import "github.com/tink-crypto/tink-go/v2/internal/verifharness/hlib"
+import (
+	"bufio"
+	"bytes"
+	"crypto/ed25519"
+	"crypto/elliptic"
+	"crypto/rand"
+	"crypto/rsa"
+	"fmt"
+	"math/big"
+	"os"
+	"strconv"
+	"strings"
+
+	"github.com/tink-crypto/tink-go/v2/internal/internalapi"
+	isig "github.com/tink-crypto/tink-go/v2/internal/signature"
+	iecdsa "github.com/tink-crypto/tink-go/v2/internal/signature/ecdsa"
+	"github.com/tink-crypto/tink-go/v2/internal/verifharness/hlib"
+	"github.com/tink-crypto/tink-go/v2/key"
+	"github.com/tink-crypto/tink-go/v2/signature"
+	"github.com/tink-crypto/tink-go/v2/signature/ecdsa"
+	edkey "github.com/tink-crypto/tink-go/v2/signature/ed25519"
+	"github.com/tink-crypto/tink-go/v2/signature/rsassapkcs1"
+	"github.com/tink-crypto/tink-go/v2/signature/rsassapss"
+	"github.com/tink-crypto/tink-go/v2/signature/subtle"
+	"github.com/tink-crypto/tink-go/v2/tink"
+)
+
+// ---------- deterministic crypto/rand ----------
+
+// detRand serves crypto/rand from seeded streams. The standard library calls
+// randutil.MaybeReadByte (a 1-byte read with probability 1/2) to defeat exactly this; 1-byte reads
+// are answered from a separate stream so that the main stream does not shift.
+type detRand struct{ main, single *hlib.Rng }
+
+func (d *detRand) Read(p []byte) (int, error) {
+	if len(p) == 1 {
+		p[0] = byte(d.single.U64())
+		return 1, nil
+	}
+	copy(p, d.main.Bytes(len(p)))
+	return len(p), nil
+}
+
+// ---------- views: one public key under one variant, as Go verifier and as model line ----------
+
+type view struct {
+	cat  string                       // histogram category
+	line func(msg, sig []byte) string // the reference's verification line
+	ver  tink.Verifier
+	pre  []byte // expected output prefix (computed by the harness from variant and id)
+}
+
+type tcase struct {
+	kind      string
+	v         *view
+	msg, sig  []byte
+	malleable bool // an accepted byte-different signature is documented behaviour ((r, n-s))
+	sameSig   bool // the signature bytes are the genuine ones (other key / other message cases)
+}
+
+var vcodes = hlib.VariantCodes // T C L R
+
+func prefixOf(vi int, id uint32) []byte {
+	switch vi {
+	case 0:
+		return []byte{1, byte(id >> 24), byte(id >> 16), byte(id >> 8), byte(id)}
+	case 1, 2:
+		return []byte{0, byte(id >> 24), byte(id >> 16), byte(id >> 8), byte(id)}
+	}
+	return []byte{}
+}
+
+func keyID(rng *hlib.Rng, vi int) uint32 {
+	if vi == 3 {
+		return 0
+	}
+	return rng.KeyID()
+}
+
+// both judges with the verifier obtained from the keyset (signature.NewVerifier: prefix map +
+// key-level primitive) and with the key type's own full primitive (NewVerifier(publicKey, token));
+// the keyset verdict is the one compared with the reference, a disagreement of the two is reported.
+type both struct {
+	factory, direct tink.Verifier
+}
+
+var gOut *hlib.Out
+
+func (b *both) Verify(sig, msg []byte) error {
+	e1 := b.factory.Verify(sig, msg)
+	e2 := b.direct.Verify(sig, msg)
+	if (e1 == nil) != (e2 == nil) {
+		gOut.Violate("signature.NewVerifier(handle) and the key's own verifier disagree (keyset: %v, direct: %v) on sig=%s... (%d bytes) msg=%s... (%d bytes)", e1, e2, hlib.Tok(sig[:min(len(sig), 40)]), len(sig), hlib.Tok(msg[:min(len(msg), 24)]), len(msg))
+	}
+	return e1
+}
+
+// alternating signer: keyset path, then the key type's own full primitive
+type altSigner struct {
+	factory, direct tink.Signer
+	n               int
+}
+
+func (a *altSigner) Sign(msg []byte) ([]byte, error) {
+	a.n++
+	if a.n%2 == 1 {
+		gOut.Count("signer/keyset")
+		return a.factory.Sign(msg)
+	}
+	gOut.Count("signer/direct")
+	return a.direct.Sign(msg)
+}
+
+func directVerifier(pub key.Key) tink.Verifier {
+	var v tink.Verifier
+	var err error
+	switch k := pub.(type) {
+	case *ecdsa.PublicKey:
+		v, err = ecdsa.NewVerifier(k, internalapi.Token{})
+	case *edkey.PublicKey:
+		v, err = edkey.NewVerifier(k, internalapi.Token{})
+	case *rsassapkcs1.PublicKey:
+		v, err = rsassapkcs1.NewVerifier(k, internalapi.Token{})
+	case *rsassapss.PublicKey:
+		v, err = rsassapss.NewVerifier(k, internalapi.Token{})
+	default:
+		panic(fmt.Sprintf("no direct verifier for %T", pub))
+	}
+	if err != nil {
+		panic(err)
+	}
+	return v
+}
+
+func directSigner(priv key.Key) tink.Signer {
+	var s tink.Signer
+	var err error
+	switch k := priv.(type) {
+	case *ecdsa.PrivateKey:
+		s, err = ecdsa.NewSigner(k, internalapi.Token{})
+	case *edkey.PrivateKey:
+		s, err = edkey.NewSigner(k, internalapi.Token{})
+	case *rsassapkcs1.PrivateKey:
+		s, err = rsassapkcs1.NewSigner(k, internalapi.Token{})
+	case *rsassapss.PrivateKey:
+		s, err = rsassapss.NewSigner(k, internalapi.Token{})
+	default:
+		panic(fmt.Sprintf("no direct signer for %T", priv))
+	}
+	if err != nil {
+		panic(err)
+	}
+	return s
+}
+
+// primitives builds signer and verifier through the keyset path (and the direct ones beside them).
+func primitives(priv key.Key) (tink.Signer, tink.Verifier) {
+	kh, err := hlib.HandleOf(priv)
+	if err != nil {
+		panic(err)
+	}
+	s, err := signature.NewSigner(kh)
+	if err != nil {
+		panic(err)
+	}
+	pub, err := kh.Public()
+	if err != nil {
+		panic(err)
+	}
+	v, err := signature.NewVerifier(pub)
+	if err != nil {
+		panic(err)
+	}
+	pk, err := priv.(interface{ PublicKey() (key.Key, error) }).PublicKey()
+	if err != nil {
+		panic(err)
+	}
+	return &altSigner{factory: s, direct: directSigner(priv)}, &both{v, directVerifier(pk)}
+}
+
+func verifierOf(pub key.Key) tink.Verifier {
+	kh, err := hlib.HandleOf(pub)
+	if err != nil {
+		panic(err)
+	}
+	v, err := signature.NewVerifier(kh)
+	if err != nil {
+		panic(err)
+	}
+	return &both{v, directVerifier(pub)}
+}
+
+type harness struct {
+	o   *hlib.Out
+	rng *hlib.Rng
+}
+
+func clone(b []byte) []byte { return append([]byte(nil), b...) }
+
+func cat(bs ...[]byte) []byte {
+	var out []byte
+	for _, b := range bs {
+		out = append(out, b...)
+	}
+	return out
+}
+
+// judge runs the cases through Go and emits the reference lines with Go's verdicts.
+func (h *harness) judge(genuine []byte, cases []tcase) {
+	o := h.o
+	for _, c := range cases {
+		var e error
+		if p := hlib.Recover(func() { e = c.v.ver.Verify(c.sig, c.msg) }); p != "" {
+			o.Violate("Verify panics on a %s case (%s): %s", c.kind, c.v.cat, p)
+			e = fmt.Errorf("panic")
+		}
+		verdict := "reject"
+		if e == nil {
+			verdict = "accept"
+			if !c.sameSig && !c.malleable && !bytes.Equal(c.sig, genuine) {
+				o.Violate("Verify accepted a %s-mutated signature that differs from the genuine one (%s): %s", c.kind, c.v.cat, c.v.line(c.msg, c.sig))
+			}
+		}
+		o.Count("mut/" + c.kind + "/" + verdict)
+		o.Emit(c.v.line(c.msg, c.sig), hlib.B01(e == nil), true)
+	}
+}
+
+// generic mutation stream: random edits, prefix games, message changes.
+func (h *harness) generic(v *view, vi int, msg, sig []byte, nRandom int) []tcase {
+	rng := h.rng
+	var cs []tcase
+	for _, m := range rng.Mutations(sig, nRandom) {
+		cs = append(cs, tcase{kind: m.Kind, v: v, msg: msg, sig: m.Data})
+	}
+	pl := len(v.pre)
+	if pl > 0 {
+		c := clone(sig)
+		c[0] ^= 1 // TINK <-> CRUNCHY/LEGACY start byte
+		cs = append(cs, tcase{kind: "prefix/other-variant", v: v, msg: msg, sig: c})
+		c = clone(sig)
+		c[1+rng.Intn(4)] ^= 1 << uint(rng.Intn(8))
+		cs = append(cs, tcase{kind: "prefix/other-id", v: v, msg: msg, sig: c})
+		cs = append(cs, tcase{kind: "prefix/missing", v: v, msg: msg, sig: clone(sig[pl:])})
+		cs = append(cs, tcase{kind: "prefix/only", v: v, msg: msg, sig: clone(sig[:pl])})
+		cs = append(cs, tcase{kind: "prefix/doubled", v: v, msg: msg, sig: cat(sig[:pl], sig)})
+	} else {
+		id := rng.KeyID()
+		cs = append(cs, tcase{kind: "prefix/added-tink", v: v, msg: msg, sig: cat(prefixOf(0, id), sig)})
+		cs = append(cs, tcase{kind: "prefix/added-crunchy", v: v, msg: msg, sig: cat(prefixOf(1, id), sig)})
+	}
+	cs = append(cs, tcase{kind: "empty", v: v, msg: msg, sig: []byte{}})
+	body := clone(sig)
+	body[pl+rng.Intn(len(sig)-pl)] ^= 1 << uint(rng.Intn(8))
+	cs = append(cs, tcase{kind: "body-bit", v: v, msg: msg, sig: body})
+	// message
+	m2 := clone(msg)
+	if len(m2) == 0 {
+		m2 = []byte{byte(rng.Intn(256))}
+	} else {
+		m2[rng.Intn(len(m2))] ^= 1 << uint(rng.Intn(8))
+	}
+	cs = append(cs, tcase{kind: "message/bit", v: v, msg: m2, sig: sig, sameSig: true})
+	cs = append(cs, tcase{kind: "message/append-00", v: v, msg: cat(msg, []byte{0}), sig: sig, sameSig: true})
+	if len(msg) > 0 {
+		cs = append(cs, tcase{kind: "message/drop-last", v: v, msg: clone(msg[:len(msg)-1]), sig: sig, sameSig: true})
+	}
+	_ = vi
+	return cs
+}
+
+func (h *harness) checkMsgOracle(cases []tcase, genuineMsg []byte) {
+	for _, c := range cases {
+		if c.sameSig && c.v != nil && !bytes.Equal(c.msg, genuineMsg) {
+			if e := c.v.ver.Verify(c.sig, c.msg); e == nil {
+				h.o.Violate("Verify accepted the signature for another message (%s, %s): %s", c.kind, c.v.cat, c.v.line(c.msg, c.sig))
+			}
+		}
+	}
+}
+
+// signAndJudge: sign msg, Go-verify, emit the genuine line, then the mutation stream.
+func (h *harness) signAndJudge(s tink.Signer, v *view, vi int, msg []byte, nRandom int, extras func(sig []byte) []tcase) []byte {
+	o := h.o
+	sig, err := s.Sign(msg)
+	if err != nil {
+		o.Violate("Sign failed (%s): %v", v.cat, err)
+		return nil
+	}
+	if !bytes.HasPrefix(sig, v.pre) {
+		o.Violate("Sign's output does not start with the key's output prefix %x (%s)", v.pre, v.cat)
+	}
+	e := v.ver.Verify(sig, msg)
+	if e != nil {
+		o.Violate("Sign's output does not verify under the key's own verifier (%s): %v", v.cat, e)
+	}
+	o.Count("genuine/" + v.cat)
+	o.Emit(v.line(msg, sig), hlib.B01(e == nil), true)
+	cs := h.generic(v, vi, msg, sig, nRandom)
+	if extras != nil {
+		cs = append(cs, extras(sig)...)
+	}
+	h.checkMsgOracle(cs, msg)
+	h.judge(sig, cs)
+	return sig
+}
+
+// ---------- ECDSA ----------
+
+type curveInfo struct {
+	name, subtleName string
+	ct               ecdsa.CurveType
+	c                elliptic.Curve
+	size             int
+}
+
+var curves = []curveInfo{
+	{"P256", "NIST_P256", ecdsa.NistP256, elliptic.P256(), 32},
+	{"P384", "NIST_P384", ecdsa.NistP384, elliptic.P384(), 48},
+	{"P521", "NIST_P521", ecdsa.NistP521, elliptic.P521(), 66},
+}
+
+type hashInfo struct {
+	name string
+	eh   ecdsa.HashType
+	p1   rsassapkcs1.HashType
+	ps   rsassapss.HashType
+	dl   int
+}
+
+var hashes = []hashInfo{
+	{"SHA256", ecdsa.SHA256, rsassapkcs1.SHA256, rsassapss.SHA256, 32},
+	{"SHA384", ecdsa.SHA384, rsassapkcs1.SHA384, rsassapss.SHA384, 48},
+	{"SHA512", ecdsa.SHA512, rsassapkcs1.SHA512, rsassapss.SHA512, 64},
+}
+
+// admissible (curve, hash) pairs of signature/ecdsa/parameters validation
+var ecPairs = [][2]int{{0, 0}, {1, 1}, {1, 2}, {2, 2}}
+
+var ecVariants = []ecdsa.Variant{ecdsa.VariantTink, ecdsa.VariantCrunchy, ecdsa.VariantLegacy, ecdsa.VariantNoPrefix}
+var encNames = []string{"DER", "P1363"}
+var encTypes = []ecdsa.SignatureEncoding{ecdsa.DER, ecdsa.IEEEP1363}
+
+func ecScalar(rng *hlib.Rng, ci curveInfo) []byte {
+	for {
+		d := rng.Bytes(ci.size)
+		if ci.size == 66 {
+			d[0] &= 1
+		}
+		x := new(big.Int).SetBytes(d)
+		if x.Sign() > 0 && x.Cmp(ci.c.Params().N) < 0 {
+			return d
+		}
+	}
+}
+
+func ecLine(ci curveInfo, hi hashInfo, enc int, vi int, id uint32, point []byte) func(msg, sig []byte) string {
+	xy := point[1:]
+	qx, qy := hlib.Tok(xy[:len(xy)/2]), hlib.Tok(xy[len(xy)/2:])
+	return func(msg, sig []byte) string {
+		return fmt.Sprintf("!G ecdsa %s %s %s %s %d %s %s %s %s", ci.name, hi.name, encNames[enc], vcodes[vi], id, qx, qy, hlib.Tok(msg), hlib.Tok(sig))
+	}
+}
+
+// ecKey builds the tink key objects for one scalar under one configuration.
+func ecKey(ci curveInfo, hi hashInfo, enc, vi int, id uint32, d []byte) (*ecdsa.PrivateKey, *view) {
+	ps, err := ecdsa.NewParameters(ci.ct, hi.eh, encTypes[enc], ecVariants[vi])
+	if err != nil {
+		panic(err)
+	}
+	priv, err := ecdsa.NewPrivateKey(hlib.Secret(d), id, ps)
+	if err != nil {
+		panic(err)
+	}
+	pubK, _ := priv.PublicKey()
+	pub := pubK.(*ecdsa.PublicKey)
+	v := &view{
+		cat:  fmt.Sprintf("ecdsa/%s/%s/%s/%s", ci.name, hi.name, encNames[enc], vcodes[vi]),
+		line: ecLine(ci, hi, enc, vi, id, pub.PublicPoint()),
+		ver:  verifierOf(pub),
+		pre:  prefixOf(vi, id),
+	}
+	return priv, v
+}
+
+// minimal DER, written here independently of the library
+func derLen(n int) []byte {
+	switch {
+	case n < 128:
+		return []byte{byte(n)}
+	case n < 256:
+		return []byte{0x81, byte(n)}
+	}
+	return []byte{0x82, byte(n >> 8), byte(n)}
+}
+
+func derIntContent(x *big.Int) []byte {
+	b := x.Bytes()
+	if len(b) == 0 {
+		return []byte{0}
+	}
+	if b[0]&0x80 != 0 {
+		return append([]byte{0}, b...)
+	}
+	return b
+}
+
+func tlv(tag byte, content []byte) []byte { return cat([]byte{tag}, derLen(len(content)), content) }
+func derInt(x *big.Int) []byte             { return tlv(2, derIntContent(x)) }
+func derSig(r, s *big.Int) []byte          { return tlv(0x30, cat(derInt(r), derInt(s))) }
+
+// nonMinimalLen gives a long-form length where a shorter form exists.
+func nonMinimalLen(n int) []byte {
+	if n < 128 {
+		return []byte{0x81, byte(n)}
+	}
+	if n < 256 {
+		return []byte{0x82, 0, byte(n)}
+	}
+	return []byte{0x83, 0, byte(n >> 8), byte(n)}
+}
+
+func p1363(r, s *big.Int, size int) []byte {
+	out := make([]byte, 2*size)
+	rb, sb := r.Bytes(), s.Bytes()
+	if len(rb) > size || len(sb) > size {
+		return nil
+	}
+	copy(out[size-len(rb):], rb)
+	copy(out[2*size-len(sb):], sb)
+	return out
+}
+
+// parse what Go produced (the harness' own reader; only used on genuine signatures)
+func parseGenuine(enc int, raw []byte, size int) (r, s *big.Int, ok bool) {
+	if enc == 1 {
+		if len(raw) != 2*size {
+			return nil, nil, false
+		}
+		return new(big.Int).SetBytes(raw[:size]), new(big.Int).SetBytes(raw[size:]), true
+	}
+	rd := func(b []byte) (content, rest []byte, ok bool) {
+		if len(b) < 2 {
+			return nil, nil, false
+		}
+		l, off := int(b[1]), 2
+		if b[1] == 0x81 && len(b) >= 3 {
+			l, off = int(b[2]), 3
+		} else if b[1] >= 0x80 {
+			return nil, nil, false
+		}
+		if len(b) < off+l {
+			return nil, nil, false
+		}
+		return b[off : off+l], b[off+l:], true
+	}
+	if len(raw) == 0 || raw[0] != 0x30 {
+		return nil, nil, false
+	}
+	body, rest, ok := rd(raw)
+	if !ok || len(rest) != 0 || len(body) == 0 || body[0] != 2 {
+		return nil, nil, false
+	}
+	rc, rest, ok := rd(body)
+	if !ok || len(rest) == 0 || rest[0] != 2 {
+		return nil, nil, false
+	}
+	sc, rest, ok := rd(rest)
+	if !ok || len(rest) != 0 {
+		return nil, nil, false
+	}
+	return new(big.Int).SetBytes(rc), new(big.Int).SetBytes(sc), true
+}
+
+// ecExtras: value-level and encoding-level variations of a genuine (r, s).
+func (h *harness) ecExtras(v *view, ci curveInfo, enc int, msg, sig []byte) []tcase {
+	o, rng := h.o, h.rng
+	raw := sig[len(v.pre):]
+	r, s, ok := parseGenuine(enc, raw, ci.size)
+	if !ok {
+		o.Violate("the harness cannot parse Go's %s signature %x (%s)", encNames[enc], raw, v.cat)
+		return nil
+	}
+	n := ci.c.Params().N
+	encode := func(r, s *big.Int) []byte {
+		if enc == 0 {
+			return derSig(r, s)
+		}
+		return p1363(r, s, ci.size)
+	}
+	var cs []tcase
+	add := func(kind string, rawSig []byte, malleable bool) {
+		if rawSig == nil {
+			o.Count("skipped/" + kind)
+			return
+		}
+		cs = append(cs, tcase{kind: kind, v: v, msg: msg, sig: cat(v.pre, rawSig), malleable: malleable})
+	}
+	// the harness' encoder reproduces Go's bytes
+	if !bytes.Equal(encode(r, s), raw) {
+		o.Violate("Go's %s signature is not the canonical encoding of its (r, s): %x (%s)", encNames[enc], raw, v.cat)
+	}
+	zero := new(big.Int)
+	nMinusS := new(big.Int).Sub(n, s)
+	add("ecdsa/n-minus-s", encode(r, nMinusS), true)
+	add("ecdsa/r=0", encode(zero, s), false)
+	add("ecdsa/s=0", encode(r, zero), false)
+	add("ecdsa/r=n", encode(n, s), false)
+	add("ecdsa/s=n", encode(r, n), false)
+	add("ecdsa/r+n", encode(new(big.Int).Add(r, n), s), false)
+	add("ecdsa/s+n", encode(r, new(big.Int).Add(s, n)), false)
+	add("ecdsa/swapped", encode(s, r), false)
+	add("ecdsa/r+1", encode(new(big.Int).Add(r, big.NewInt(1)), s), false)
+	add("ecdsa/n-minus-r", encode(new(big.Int).Sub(n, r), s), false)
+	ri, si := derInt(r), derInt(s)
+	body := cat(ri, si)
+	if enc == 0 {
+		add("der/seq-long-form-length", cat([]byte{0x30}, nonMinimalLen(len(body)), body), false)
+		rl := cat([]byte{2}, nonMinimalLen(len(derIntContent(r))), derIntContent(r))
+		add("der/int-long-form-length", tlv(0x30, cat(rl, si)), false)
+		add("der/r-extra-leading-00", tlv(0x30, cat(tlv(2, cat([]byte{0}, derIntContent(r))), si)), false)
+		add("der/s-extra-leading-00", tlv(0x30, cat(ri, tlv(2, cat([]byte{0}, derIntContent(s))))), false)
+		// a needed 00 removed: the INTEGER becomes negative
+		switch {
+		case derIntContent(r)[0] == 0 && len(derIntContent(r)) > 1:
+			add("der/needed-00-stripped-negative", tlv(0x30, cat(tlv(2, derIntContent(r)[1:]), si)), false)
+		case derIntContent(s)[0] == 0 && len(derIntContent(s)) > 1:
+			add("der/needed-00-stripped-negative", tlv(0x30, cat(ri, tlv(2, derIntContent(s)[1:]))), false)
+		default:
+			o.Count("skipped/der/needed-00-stripped-negative")
+		}
+		add("der/trailing-after-sequence", cat(raw, []byte{byte(rng.Pick(0, 0, rng.Intn(256)))}), false)
+		add("der/trailing-inside-sequence", tlv(0x30, cat(body, []byte{byte(rng.Pick(0, 0, rng.Intn(256)))})), false)
+		add("der/trailing-inside-sequence-tlv", tlv(0x30, cat(body, []byte{5, 0})), false)
+		add("der/indefinite-length", cat([]byte{0x30, 0x80}, body, []byte{0, 0}), false)
+		add("der/set-instead-of-sequence", tlv(0x31, body), false)
+		add("der/zero-length-integer", tlv(0x30, cat([]byte{2, 0}, si)), false)
+		add("der/sequence-length-too-long", cat([]byte{0x30}, derLen(len(body)+1), body), false)
+		add("der/sequence-length-too-short", cat([]byte{0x30}, derLen(len(body)-1), body), false)
+		add("der/one-integer-only", tlv(0x30, ri), false)
+		add("der/three-integers", tlv(0x30, cat(body, si)), false)
+		add("der/constructed-integer-tag", tlv(0x30, cat(cat([]byte{0x22}, ri[1:]), si)), false)
+		add("encoding/p1363-bytes-to-der-key", p1363(r, s, ci.size), false)
+	} else {
+		add("p1363/one-byte-more-front", cat([]byte{0}, raw), false)
+		add("p1363/one-byte-more-back", cat(raw, []byte{0}), false)
+		add("p1363/one-byte-less-front", clone(raw[1:]), false)
+		add("p1363/one-byte-less-back", clone(raw[:len(raw)-1]), false)
+		add("p1363/r-and-s-one-byte-shorter", cat(raw[1:ci.size], raw[ci.size+1:]), false)
+		add("p1363/halves-of-other-curve-size", p1363(r, s, ci.size+rng.Pick(-16, 16, 18)), false)
+		add("encoding/der-bytes-to-p1363-key", derSig(r, s), false)
+	}
+	return cs
+}
+
+func (h *harness) ecdsaAll() {
+	o, rng := h.o, h.rng
+	nKeys := hlib.N(2, 10)
+	nMsg := hlib.N(3, 6)
+	for _, pr := range ecPairs {
+		ci, hi := curves[pr[0]], hashes[pr[1]]
+		for enc := 0; enc < 2; enc++ {
+			for vi := 0; vi < 4; vi++ {
+				for k := 0; k < nKeys; k++ {
+					o.Case()
+					d := ecScalar(rng, ci)
+					id := keyID(rng, vi)
+					priv, v := ecKey(ci, hi, enc, vi, id, d)
+					signer, ver := primitives(priv)
+					v.ver = ver // the verifier obtained from handle.Public()
+					// the same point as another key, for the other-key cases
+					_, vOther := ecKey(ci, hi, enc, vi, id, ecScalar(rng, ci))
+					for m := 0; m < nMsg; m++ {
+						msg := rng.Bytes(rng.MsgLen(300))
+						sig := h.signAndJudge(signer, v, vi, msg, 5, func(sig []byte) []tcase {
+							cs := h.ecExtras(v, ci, enc, msg, sig)
+							cs = append(cs, tcase{kind: "other-key", v: vOther, msg: msg, sig: sig, sameSig: true})
+							return cs
+						})
+						if sig == nil {
+							continue
+						}
+						if m == 0 {
+							h.ecCross(ci, hi, enc, vi, id, d, msg, sig, v)
+						}
+					}
+				}
+			}
+		}
+	}
+	// signature/subtle (no prefix)
+	for _, pr := range ecPairs {
+		ci, hi := curves[pr[0]], hashes[pr[1]]
+		for enc := 0; enc < 2; enc++ {
+			o.Case()
+			encS := []string{"DER", "IEEE_P1363"}[enc]
+			d := ecScalar(rng, ci)
+			s, err := subtle.NewECDSASigner(hi.name, ci.subtleName, encS, d)
+			if err != nil {
+				panic(err)
+			}
+			x, y := ci.c.ScalarBaseMult(d)
+			xb, yb := x.FillBytes(make([]byte, ci.size)), y.FillBytes(make([]byte, ci.size))
+			ver, err := subtle.NewECDSAVerifier(hi.name, ci.subtleName, encS, xb, yb)
+			if err != nil {
+				panic(err)
+			}
+			v := &view{cat: fmt.Sprintf("ecdsa-subtle/%s/%s/%s", ci.name, hi.name, encNames[enc]),
+				line: ecLine(ci, hi, enc, 3, 0, cat([]byte{4}, xb, yb)), ver: ver, pre: []byte{}}
+			for m := 0; m < hlib.N(3, 20); m++ {
+				msg := rng.Bytes(rng.MsgLen(300))
+				h.signAndJudge(s, v, 3, msg, 4, func(sig []byte) []tcase { return h.ecExtras(v, ci, enc, msg, sig) })
+			}
+		}
+	}
+}
+
+// ecCross: the same key material under another variant / encoding / hash.
+func (h *harness) ecCross(ci curveInfo, hi hashInfo, enc, vi int, id uint32, d, msg, sig []byte, v *view) {
+	var cs []tcase
+	if vi == 2 {
+		// a LEGACY signature presented to the CRUNCHY key with the same id and point: same prefix
+		// bytes, but no 0x00 was appended by the verifier
+		_, vc := ecKey(ci, hi, enc, 1, id, d)
+		cs = append(cs, tcase{kind: "legacy-signature-to-crunchy-key", v: vc, msg: msg, sig: sig, sameSig: true})
+		if e := vc.ver.Verify(sig, msg); e == nil {
+			h.o.Violate("the CRUNCHY verifier accepts a LEGACY signature (%s)", v.cat)
+		}
+		// and a CRUNCHY signature over message|00 is what LEGACY verification accepts
+		pc, _ := ecKey(ci, hi, enc, 1, id, d)
+		sc, _ := primitives(pc)
+		if s2, err := sc.Sign(cat(msg, []byte{0})); err == nil {
+			cs = append(cs, tcase{kind: "crunchy-signature-over-msg00-to-legacy-key", v: v, msg: msg, sig: s2, sameSig: true})
+		}
+	}
+	if vi == 1 {
+		_, vl := ecKey(ci, hi, enc, 2, id, d)
+		cs = append(cs, tcase{kind: "crunchy-signature-to-legacy-key", v: vl, msg: msg, sig: sig, sameSig: true})
+	}
+	// the other encoding's key
+	_, ve := ecKey(ci, hi, 1-enc, vi, id, d)
+	cs = append(cs, tcase{kind: "encoding/genuine-to-other-encoding-key", v: ve, msg: msg, sig: sig, sameSig: true})
+	if ci.name == "P384" {
+		_, vh := ecKey(ci, hashes[3-indexOfHash(hi)], enc, vi, id, d)
+		cs = append(cs, tcase{kind: "other-hash-key", v: vh, msg: msg, sig: sig, sameSig: true})
+	}
+	h.judge(sig, cs)
+}
+
+func indexOfHash(hi hashInfo) int {
+	for i, x := range hashes {
+		if x.name == hi.name {
+			return i
+		}
+	}
+	return 0
+}
+
+// DER codec of internal/signature/ecdsa against the reference's strict codec.
+func (h *harness) derCodec() {
+	o, rng := h.o, h.rng
+	o.Case()
+	goDer := func(b []byte) string {
+		sg, err := iecdsa.ASN1Decode(b)
+		if err != nil {
+			return "err"
+		}
+		if sg.R.Sign() < 0 || sg.S.Sign() < 0 {
+			// ASN1Decode returns negative values for canonical negative INTEGERs; an ECDSA-Sig-Value has
+			// none, and the verification path (crypto/ecdsa.VerifyASN1) refuses them: see the
+			// der/needed-00-stripped-negative cases. Counted, and reported as undecodable.
+			o.Count("der-codec/negative-integer-returned-by-ASN1Decode")
+			return "err"
+		}
+		return fmt.Sprintf("ok %s %s", sg.R.String(), sg.S.String())
+	}
+	randInt := func() *big.Int {
+		switch rng.Intn(8) {
+		case 0:
+			return big.NewInt(int64(rng.Pick(0, 1, 127, 128, 255, 256, 32767, 32768)))
+		case 1:
+			return new(big.Int).Lsh(big.NewInt(1), uint(8*rng.Pick(1, 16, 31, 32, 47, 48, 65, 66)-rng.Intn(2)))
+		case 2:
+			b := rng.Bytes(rng.Pick(32, 48, 66))
+			b[0] |= 0x80
+			return new(big.Int).SetBytes(b)
+		case 3:
+			b := rng.Bytes(rng.Pick(32, 48, 66))
+			b[0] = 0
+			b[1] &= 0x7f
+			return new(big.Int).SetBytes(b)
+		}
+		return new(big.Int).SetBytes(rng.Bytes(1 + rng.Intn(70)))
+	}
+	for i := 0; i < hlib.N(150, 3000); i++ {
+		r, s := randInt(), randInt()
+		enc, err := iecdsa.ASN1Encode(&iecdsa.Signature{R: r, S: s})
+		res := "err"
+		if err == nil {
+			res = hlib.Tok(enc)
+		}
+		o.Count("der-codec/encode")
+		o.Emit(fmt.Sprintf("!G derenc %s %s", r.String(), s.String()), res, true)
+		good := derSig(r, s)
+		o.Count("der-codec/decode-canonical")
+		o.Emit("!G der "+hlib.Tok(good), goDer(good), true)
+		ri, si := derInt(r), derInt(s)
+		body := cat(ri, si)
+		var bad [][]byte
+		bad = append(bad,
+			cat([]byte{0x30}, nonMinimalLen(len(body)), body),
+			tlv(0x30, cat(tlv(2, cat([]byte{0}, derIntContent(r))), si)),
+			cat(good, []byte{0}),
+			tlv(0x30, cat(body, []byte{0})),
+			cat([]byte{0x30, 0x80}, body, []byte{0, 0}),
+			tlv(0x31, body),
+			tlv(0x30, cat([]byte{2, 0}, si)),
+			tlv(0x30, ri),
+			good[:len(good)-1],
+		)
+		if c := derIntContent(s); c[0] == 0 && len(c) > 1 {
+			bad = append(bad, tlv(0x30, cat(ri, tlv(2, c[1:]))))
+		}
+		for _, m := range rng.Mutations(good, 2) {
+			bad = append(bad, m.Data)
+		}
+		for _, b := range bad {
+			o.Count("der-codec/decode-variation")
+			o.Emit("!G der "+hlib.Tok(b), goDer(b), true)
+		}
+	}
+}
+
+// ---------- Ed25519 ----------
+
+var edVariants = []edkey.Variant{edkey.VariantTink, edkey.VariantCrunchy, edkey.VariantLegacy, edkey.VariantNoPrefix}
+
+func edKey(vi int, id uint32, seed []byte) (*edkey.PrivateKey, *view) {
+	ps, err := edkey.NewParameters(edVariants[vi])
+	if err != nil {
+		panic(err)
+	}
+	priv, err := edkey.NewPrivateKey(hlib.Secret(seed), id, ps)
+	if err != nil {
+		panic(err)
+	}
+	pubK, _ := priv.PublicKey()
+	pub := pubK.(*edkey.PublicKey)
+	pb := hlib.Tok(pub.KeyBytes())
+	v := &view{cat: "ed25519/" + vcodes[vi], ver: verifierOf(pub), pre: prefixOf(vi, id),
+		line: func(msg, sig []byte) string {
+			return fmt.Sprintf("!G ed25519 %s %d %s %s %s", vcodes[vi], id, pb, hlib.Tok(msg), hlib.Tok(sig))
+		}}
+	return priv, v
+}
+
+var edL, _ = new(big.Int).SetString("7237005577332262213973186563042994240857116359379907606001950938285454250989", 10)
+
+func leBytes(x *big.Int, n int) []byte {
+	b := x.FillBytes(make([]byte, n))
+	for i, j := 0, n-1; i < j; i, j = i+1, j-1 {
+		b[i], b[j] = b[j], b[i]
+	}
+	return b
+}
+
+func (h *harness) edExtras(v *view, msg, sig []byte) []tcase {
+	raw := sig[len(v.pre):]
+	if len(raw) != 64 {
+		h.o.Violate("Ed25519 signature has %d bytes (%s)", len(raw), v.cat)
+		return nil
+	}
+	var cs []tcase
+	add := func(kind string, r []byte) {
+		cs = append(cs, tcase{kind: kind, v: v, msg: msg, sig: cat(v.pre, r)})
+	}
+	// S + L: same scalar modulo the group order, non-canonical (RFC 8032 5.1.7 requires S < L)
+	sLE := clone(raw[32:])
+	for i, j := 0, 31; i < j; i, j = i+1, j-1 {
+		sLE[i], sLE[j] = sLE[j], sLE[i]
+	}
+	S := new(big.Int).SetBytes(sLE)
+	add("ed25519/S+L", cat(raw[:32], leBytes(new(big.Int).Add(S, edL), 32)))
+	add("ed25519/S=0", cat(raw[:32], make([]byte, 32)))
+	add("ed25519/S=L", cat(raw[:32], leBytes(edL, 32)))
+	add("ed25519/L-S", cat(raw[:32], leBytes(new(big.Int).Sub(edL, S), 32)))
+	add("ed25519/R-sign-bit", cat(raw[:31], []byte{raw[31] ^ 0x80}, raw[32:]))
+	add("ed25519/R-and-S-swapped", cat(raw[32:], raw[:32]))
+	add("ed25519/63-bytes", clone(raw[:63]))
+	add("ed25519/65-bytes", cat(raw, []byte{0}))
+	return cs
+}
+
+func (h *harness) ed25519All() {
+	o, rng := h.o, h.rng
+	for vi := 0; vi < 4; vi++ {
+		for k := 0; k < hlib.N(4, 24); k++ {
+			o.Case()
+			seed := rng.Bytes(32)
+			id := keyID(rng, vi)
+			priv, v := edKey(vi, id, seed)
+			signer, ver := primitives(priv)
+			v.ver = ver
+			_, vOther := edKey(vi, id, rng.Bytes(32))
+			for m := 0; m < hlib.N(3, 8); m++ {
+				msg := rng.Bytes(rng.MsgLen(300))
+				sig := h.signAndJudge(signer, v, vi, msg, 6, func(sig []byte) []tcase {
+					cs := h.edExtras(v, msg, sig)
+					return append(cs, tcase{kind: "other-key", v: vOther, msg: msg, sig: sig, sameSig: true})
+				})
+				if sig == nil || m != 0 {
+					continue
+				}
+				var cs []tcase
+				if vi == 2 {
+					_, vc := edKey(1, id, seed)
+					cs = append(cs, tcase{kind: "legacy-signature-to-crunchy-key", v: vc, msg: msg, sig: sig, sameSig: true})
+					if vc.ver.Verify(sig, msg) == nil {
+						o.Violate("the CRUNCHY verifier accepts a LEGACY signature (%s)", v.cat)
+					}
+					pc, _ := edKey(1, id, seed)
+					sc, _ := primitives(pc)
+					if s2, err := sc.Sign(cat(msg, []byte{0})); err == nil {
+						cs = append(cs, tcase{kind: "crunchy-signature-over-msg00-to-legacy-key", v: v, msg: msg, sig: s2, sameSig: true})
+					}
+				}
+				if vi == 1 {
+					_, vl := edKey(2, id, seed)
+					cs = append(cs, tcase{kind: "crunchy-signature-to-legacy-key", v: vl, msg: msg, sig: sig, sameSig: true})
+				}
+				h.judge(sig, cs)
+			}
+		}
+	}
+	// subtle
+	for k := 0; k < hlib.N(2, 12); k++ {
+		o.Case()
+		seed := rng.Bytes(32)
+		s, err := subtle.NewED25519Signer(seed)
+		if err != nil {
+			panic(err)
+		}
+		pub := ed25519.NewKeyFromSeed(seed).Public().(ed25519.PublicKey)
+		ver, err := subtle.NewED25519Verifier(pub)
+		if err != nil {
+			panic(err)
+		}
+		pb := hlib.Tok(pub)
+		v := &view{cat: "ed25519-subtle", ver: ver, pre: []byte{}, line: func(msg, sig []byte) string {
+			return fmt.Sprintf("!G ed25519 R 0 %s %s %s", pb, hlib.Tok(msg), hlib.Tok(sig))
+		}}
+		for m := 0; m < hlib.N(3, 8); m++ {
+			msg := rng.Bytes(rng.MsgLen(300))
+			h.signAndJudge(s, v, 3, msg, 5, func(sig []byte) []tcase { return h.edExtras(v, msg, sig) })
+		}
+	}
+}
+
+// ---------- RSA ----------
+
+var p1Variants = []rsassapkcs1.Variant{rsassapkcs1.VariantTink, rsassapkcs1.VariantCrunchy, rsassapkcs1.VariantLegacy, rsassapkcs1.VariantNoPrefix}
+var psVariants = []rsassapss.Variant{rsassapss.VariantTink, rsassapss.VariantCrunchy, rsassapss.VariantLegacy, rsassapss.VariantNoPrefix}
+
+const f4 = 65537
+
+type rsaMat struct {
+	bits int
+	k    *rsa.PrivateKey
+	nTok string
+	// an odd modulus of the same size without known factors: the "other key" of verification-only cases
+	otherN []byte
+}
+
+func newRSA(bits int) *rsaMat {
+	k, err := rsa.GenerateKey(rand.Reader, bits)
+	if err != nil {
+		panic(err)
+	}
+	if k.E != f4 || k.N.BitLen() != bits {
+		panic("unexpected RSA key")
+	}
+	other := new(big.Int).Add(k.N, big.NewInt(2))
+	if other.BitLen() != bits {
+		other.Sub(k.N, big.NewInt(2))
+	}
+	return &rsaMat{bits: bits, k: k, nTok: hlib.Tok(k.N.Bytes()), otherN: other.Bytes()}
+}
+
+func p1View(bits int, hi hashInfo, vi int, id uint32, n []byte) (*rsassapkcs1.PublicKey, *view) {
+	ps, err := rsassapkcs1.NewParameters(bits, hi.p1, f4, p1Variants[vi])
+	if err != nil {
+		panic(err)
+	}
+	pub, err := rsassapkcs1.NewPublicKey(n, id, ps)
+	if err != nil {
+		panic(err)
+	}
+	nt := hlib.Tok(n)
+	return pub, &view{cat: fmt.Sprintf("pkcs1/%d/%s/%s", bits, hi.name, vcodes[vi]), ver: verifierOf(pub), pre: prefixOf(vi, id),
+		line: func(msg, sig []byte) string {
+			return fmt.Sprintf("!G pkcs1 %s %s %d %s 010001 %s %s", hi.name, vcodes[vi], id, nt, hlib.Tok(msg), hlib.Tok(sig))
+		}}
+}
+
+func psView(bits int, hi hashInfo, salt, vi int, id uint32, n []byte) (*rsassapss.PublicKey, *view) {
+	ps, err := rsassapss.NewParameters(rsassapss.ParametersValues{ModulusSizeBits: bits, SigHashType: hi.ps, MGF1HashType: hi.ps,
+		PublicExponent: f4, SaltLengthBytes: salt}, psVariants[vi])
+	if err != nil {
+		panic(err)
+	}
+	pub, err := rsassapss.NewPublicKey(n, id, ps)
+	if err != nil {
+		panic(err)
+	}
+	nt := hlib.Tok(n)
+	return pub, &view{cat: fmt.Sprintf("pss/%d/%s/salt%d/%s", bits, hi.name, salt, vcodes[vi]), ver: verifierOf(pub), pre: prefixOf(vi, id),
+		line: func(msg, sig []byte) string {
+			return fmt.Sprintf("!G pss %s %d %s %d %s 010001 %s %s", hi.name, salt, vcodes[vi], id, nt, hlib.Tok(msg), hlib.Tok(sig))
+		}}
+}
+
+func (m *rsaMat) p1Signer(pub *rsassapkcs1.PublicKey) (tink.Signer, tink.Verifier) {
+	priv, err := rsassapkcs1.NewPrivateKey(pub, rsassapkcs1.PrivateKeyValues{P: hlib.Secret(m.k.Primes[0].Bytes()), Q: hlib.Secret(m.k.Primes[1].Bytes()), D: hlib.Secret(m.k.D.Bytes())})
+	if err != nil {
+		panic(err)
+	}
+	return primitives(priv)
+}
+
+func (m *rsaMat) psSigner(pub *rsassapss.PublicKey) (tink.Signer, tink.Verifier) {
+	priv, err := rsassapss.NewPrivateKey(pub, rsassapss.PrivateKeyValues{P: hlib.Secret(m.k.Primes[0].Bytes()), Q: hlib.Secret(m.k.Primes[1].Bytes()), D: hlib.Secret(m.k.D.Bytes())})
+	if err != nil {
+		panic(err)
+	}
+	return primitives(priv)
+}
+
+// rsaExtras: integer-level variations of a genuine signature.
+func (h *harness) rsaExtras(v *view, m *rsaMat, msg, sig []byte) []tcase {
+	raw := sig[len(v.pre):]
+	k := (m.bits + 7) / 8
+	if len(raw) != k {
+		h.o.Violate("RSA signature has %d bytes, modulus has %d (%s)", len(raw), k, v.cat)
+	}
+	var cs []tcase
+	add := func(kind string, r []byte) {
+		cs = append(cs, tcase{kind: kind, v: v, msg: msg, sig: cat(v.pre, r)})
+	}
+	add("rsa/leading-00-added", cat([]byte{0}, raw))
+	add("rsa/trailing-00-added", cat(raw, []byte{0}))
+	add("rsa/first-byte-dropped", clone(raw[1:]))
+	if raw[0] == 0 {
+		h.o.Count("rsa/genuine-signature-with-leading-00")
+		add("rsa/leading-00-stripped-same-integer", clone(raw[1:]))
+	}
+	sPlusN := new(big.Int).Add(new(big.Int).SetBytes(raw), m.k.N)
+	if b := sPlusN.Bytes(); len(b) <= k {
+		add("rsa/s+n-same-length", sPlusN.FillBytes(make([]byte, k)))
+	} else {
+		add("rsa/s+n-one-byte-longer", b)
+	}
+	add("rsa/s=n", m.k.N.Bytes())
+	add("rsa/s=0", make([]byte, k))
+	add("rsa/s=1", new(big.Int).SetInt64(1).FillBytes(make([]byte, k)))
+	add("rsa/n-minus-s", new(big.Int).Sub(m.k.N, new(big.Int).SetBytes(raw)).FillBytes(make([]byte, k)))
+	return cs
+}
+
+// pssConfig: one RSA-SSA-PSS key configuration; crossSalts are the salt lengths of the keys the
+// genuine signature is also presented to.
+func (h *harness) pssConfig(m *rsaMat, hi hashInfo, salt, vi int, crossSalts []int) {
+	o, rng := h.o, h.rng
+	n := m.k.N.Bytes()
+	o.Case()
+	id := keyID(rng, vi)
+	pub, v := psView(m.bits, hi, salt, vi, id, n)
+	signer, ver := m.psSigner(pub)
+	v.ver = ver
+	_, vOther := psView(m.bits, hi, salt, vi, id, m.otherN)
+	for i := 0; i < hlib.N(2, 8); i++ {
+		msg := rng.Bytes(rng.MsgLen(300))
+		sig := h.signAndJudge(signer, v, vi, msg, 4, func(sig []byte) []tcase {
+			cs := h.rsaExtras(v, m, msg, sig)
+			cs = append(cs, tcase{kind: "other-key", v: vOther, msg: msg, sig: sig, sameSig: true})
+			// keys that differ in the salt length only
+			start := rng.Intn(len(crossSalts))
+			for dj := 0; dj < 2; dj++ {
+				s2 := crossSalts[(start+dj)%len(crossSalts)]
+				if s2 == salt {
+					continue
+				}
+				_, vs := psView(m.bits, hi, s2, vi, id, n)
+				cs = append(cs, tcase{kind: fmt.Sprintf("pss/salt%d-signature-to-salt%d-key", salt, s2), v: vs, msg: msg, sig: sig, sameSig: true})
+			}
+			return cs
+		})
+		if sig == nil || i != 0 {
+			continue
+		}
+		var cs []tcase
+		if vi == 2 {
+			_, vc := psView(m.bits, hi, salt, 1, id, n)
+			cs = append(cs, tcase{kind: "legacy-signature-to-crunchy-key", v: vc, msg: msg, sig: sig, sameSig: true})
+			if vc.ver.Verify(sig, msg) == nil {
+				o.Violate("the CRUNCHY verifier accepts a LEGACY signature (%s)", v.cat)
+			}
+		}
+		_, vh := psView(m.bits, hashes[(indexOfHash(hi)+1)%3], salt, vi, id, n)
+		cs = append(cs, tcase{kind: "other-hash-key", v: vh, msg: msg, sig: sig, sameSig: true})
+		_, v1 := p1View(m.bits, hi, vi, id, n)
+		cs = append(cs, tcase{kind: "pss-signature-to-pkcs1-key", v: v1, msg: msg, sig: sig, sameSig: true})
+		h.judge(sig, cs)
+	}
+}
+
+// pssSaltZero: keys whose salt length is 0, and signatures of other salt lengths presented to them.
+// Kept as the last section of the run.
+func (h *harness) pssSaltZero(mats []*rsaMat) {
+	salts := []int{0, 20, 32, 48, 64}
+	for _, m := range mats {
+		for _, hi := range hashes {
+			for vi := 0; vi < 4; vi++ {
+				h.pssConfig(m, hi, 0, vi, salts[1:])
+			}
+			// signatures made under the other salt lengths, presented to the salt-0 key
+			for _, salt := range salts[1:] {
+				h.pssConfig(m, hi, salt, h.rng.Intn(4), []int{0})
+			}
+		}
+	}
+	m := mats[0]
+	for _, hi := range hashes {
+		h.pssInternal(m, hi, 0)
+	}
+}
+
+func (h *harness) pssInternal(m *rsaMat, hi hashInfo, salt int) {
+	s, err := isig.New_RSA_SSA_PSS_Signer(hi.name, salt, m.k)
+	if err != nil {
+		panic(err)
+	}
+	ver, err := isig.New_RSA_SSA_PSS_Verifier(hi.name, salt, &m.k.PublicKey)
+	if err != nil {
+		panic(err)
+	}
+	v := &view{cat: fmt.Sprintf("pss-internal/%s/salt%d", hi.name, salt), ver: ver, pre: []byte{}, line: func(msg, sig []byte) string {
+		return fmt.Sprintf("!G pss %s %d R 0 %s 010001 %s %s", hi.name, salt, m.nTok, hlib.Tok(msg), hlib.Tok(sig))
+	}}
+	h.o.Case()
+	msg := h.rng.Bytes(h.rng.MsgLen(300))
+	h.signAndJudge(s, v, 3, msg, 3, func(sig []byte) []tcase { return h.rsaExtras(v, m, msg, sig) })
+}
+
+func (h *harness) rsaAll(mats []*rsaMat) {
+	o, rng := h.o, h.rng
+	salts := []int{0, 20, 32, 48, 64}
+	for _, m := range mats {
+		n := m.k.N.Bytes()
+		// PKCS1
+		for hx, hi := range hashes {
+			for vi := 0; vi < 4; vi++ {
+				o.Case()
+				id := keyID(rng, vi)
+				pub, v := p1View(m.bits, hi, vi, id, n)
+				signer, ver := m.p1Signer(pub)
+				v.ver = ver
+				_, vOther := p1View(m.bits, hi, vi, id, m.otherN)
+				_, vHash := p1View(m.bits, hashes[(hx+1)%3], vi, id, n)
+				for i := 0; i < hlib.N(2, 10); i++ {
+					msg := rng.Bytes(rng.MsgLen(300))
+					sig := h.signAndJudge(signer, v, vi, msg, 5, func(sig []byte) []tcase {
+						cs := h.rsaExtras(v, m, msg, sig)
+						cs = append(cs, tcase{kind: "other-key", v: vOther, msg: msg, sig: sig, sameSig: true})
+						cs = append(cs, tcase{kind: "other-hash-key", v: vHash, msg: msg, sig: sig, sameSig: true})
+						return cs
+					})
+					if sig == nil || i != 0 {
+						continue
+					}
+					var cs []tcase
+					if vi == 2 {
+						_, vc := p1View(m.bits, hi, 1, id, n)
+						cs = append(cs, tcase{kind: "legacy-signature-to-crunchy-key", v: vc, msg: msg, sig: sig, sameSig: true})
+						if vc.ver.Verify(sig, msg) == nil {
+							o.Violate("the CRUNCHY verifier accepts a LEGACY signature (%s)", v.cat)
+						}
+						pc, _ := p1View(m.bits, hi, 1, id, n)
+						sc, _ := m.p1Signer(pc)
+						if s2, err := sc.Sign(cat(msg, []byte{0})); err == nil {
+							cs = append(cs, tcase{kind: "crunchy-signature-over-msg00-to-legacy-key", v: v, msg: msg, sig: s2, sameSig: true})
+						}
+					}
+					if vi == 1 {
+						_, vl := p1View(m.bits, hi, 2, id, n)
+						cs = append(cs, tcase{kind: "crunchy-signature-to-legacy-key", v: vl, msg: msg, sig: sig, sameSig: true})
+					}
+					// the PSS key with the same modulus
+					_, vp := psView(m.bits, hi, 32, vi, id, n)
+					cs = append(cs, tcase{kind: "pkcs1-signature-to-pss-key", v: vp, msg: msg, sig: sig, sameSig: true})
+					h.judge(sig, cs)
+				}
+			}
+		}
+		// PSS (the keys with salt length 0 come last, see pssSaltZero)
+		for _, hi := range hashes {
+			for _, salt := range salts[1:] {
+				for vi := 0; vi < 4; vi++ {
+					h.pssConfig(m, hi, salt, vi, salts[1:])
+				}
+			}
+		}
+	}
+	// internal/signature raw signers (no prefix), and the hunt for a signature whose first byte is 00
+	m := mats[0]
+	o.Case()
+	for _, hi := range hashes {
+		s, err := isig.New_RSA_SSA_PKCS1_Signer(hi.name, m.k)
+		if err != nil {
+			panic(err)
+		}
+		ver, err := isig.New_RSA_SSA_PKCS1_Verifier(hi.name, &m.k.PublicKey)
+		if err != nil {
+			panic(err)
+		}
+		v := &view{cat: "pkcs1-internal/" + hi.name, ver: ver, pre: []byte{}, line: func(msg, sig []byte) string {
+			return fmt.Sprintf("!G pkcs1 %s R 0 %s 010001 %s %s", hi.name, m.nTok, hlib.Tok(msg), hlib.Tok(sig))
+		}}
+		for i := 0; i < hlib.N(2, 10); i++ {
+			msg := rng.Bytes(rng.MsgLen(300))
+			h.signAndJudge(s, v, 3, msg, 4, func(sig []byte) []tcase { return h.rsaExtras(v, m, msg, sig) })
+		}
+		if hi.name != "SHA256" {
+			continue
+		}
+		// a genuine signature that starts with 00: its stripped form is the same integer, one byte short
+		found := 0
+		for i := 0; i < hlib.N(1500, 6000) && found < hlib.N(2, 8); i++ {
+			msg := rng.Bytes(8 + rng.Intn(24))
+			sig, err := s.Sign(msg)
+			if err != nil || sig[0] != 0 {
+				continue
+			}
+			found++
+			o.Count("rsa/genuine-signature-with-leading-00")
+			o.Emit(v.line(msg, sig), hlib.B01(ver.Verify(sig, msg) == nil), true)
+			h.judge(sig, []tcase{{kind: "rsa/leading-00-stripped-same-integer", v: v, msg: msg, sig: clone(sig[1:])}})
+		}
+	}
+	for _, hi := range hashes {
+		for _, salt := range []int{20, 32, 64} {
+			h.pssInternal(m, hi, salt)
+		}
+	}
+}
+
+// ---------- replay: re-evaluate op lines of an earlier run against the current tree ----------
+
+func evalLine(l string) (res string) {
+	defer func() {
+		if r := recover(); r != nil {
+			res = "harness-cannot-evaluate: " + fmt.Sprint(r)
+		}
+	}()
+	t := strings.Fields(strings.TrimPrefix(l, "!"))
+	if len(t) < 2 || t[0] != "G" {
+		return "bad-op"
+	}
+	vidx := func(c string) int {
+		for i, x := range vcodes {
+			if x == c {
+				return i
+			}
+		}
+		panic("variant " + c)
+	}
+	hidx := func(n string) hashInfo {
+		for _, x := range hashes {
+			if x.name == n {
+				return x
+			}
+		}
+		panic("hash " + n)
+	}
+	u32 := func(x string) uint32 {
+		v, err := strconv.ParseUint(x, 10, 32)
+		if err != nil {
+			panic(err)
+		}
+		return uint32(v)
+	}
+	verdict := func(pub key.Key, err error, msg, sig string) string {
+		if err != nil {
+			panic(err)
+		}
+		return hlib.B01(verifierOf(pub).Verify(hlib.FromTok(sig), hlib.FromTok(msg)) == nil)
+	}
+	switch t[1] {
+	case "ecdsa":
+		var ci curveInfo
+		for _, c := range curves {
+			if c.name == t[2] {
+				ci = c
+			}
+		}
+		enc := 0
+		if t[4] == "P1363" {
+			enc = 1
+		}
+		ps, err := ecdsa.NewParameters(ci.ct, hidx(t[3]).eh, encTypes[enc], ecVariants[vidx(t[5])])
+		if err != nil {
+			panic(err)
+		}
+		pt := cat([]byte{4}, new(big.Int).SetBytes(hlib.FromTok(t[7])).FillBytes(make([]byte, ci.size)), new(big.Int).SetBytes(hlib.FromTok(t[8])).FillBytes(make([]byte, ci.size)))
+		pub, err := ecdsa.NewPublicKey(pt, u32(t[6]), ps)
+		return verdict(pub, err, t[9], t[10])
+	case "ed25519":
+		ps, err := edkey.NewParameters(edVariants[vidx(t[2])])
+		if err != nil {
+			panic(err)
+		}
+		pub, err := edkey.NewPublicKey(hlib.FromTok(t[4]), u32(t[3]), ps)
+		return verdict(pub, err, t[5], t[6])
+	case "pkcs1":
+		n := hlib.FromTok(t[5])
+		ps, err := rsassapkcs1.NewParameters(new(big.Int).SetBytes(n).BitLen(), hidx(t[2]).p1, int(new(big.Int).SetBytes(hlib.FromTok(t[6])).Int64()), p1Variants[vidx(t[3])])
+		if err != nil {
+			panic(err)
+		}
+		pub, err := rsassapkcs1.NewPublicKey(n, u32(t[4]), ps)
+		return verdict(pub, err, t[7], t[8])
+	case "pss":
+		n := hlib.FromTok(t[6])
+		salt, _ := strconv.Atoi(t[3])
+		hi := hidx(t[2])
+		ps, err := rsassapss.NewParameters(rsassapss.ParametersValues{ModulusSizeBits: new(big.Int).SetBytes(n).BitLen(), SigHashType: hi.ps, MGF1HashType: hi.ps,
+			PublicExponent: int(new(big.Int).SetBytes(hlib.FromTok(t[7])).Int64()), SaltLengthBytes: salt}, psVariants[vidx(t[4])])
+		if err != nil {
+			panic(err)
+		}
+		pub, err := rsassapss.NewPublicKey(n, u32(t[5]), ps)
+		return verdict(pub, err, t[8], t[9])
+	case "der":
+		sg, err := iecdsa.ASN1Decode(hlib.FromTok(t[2]))
+		if err != nil || sg.R.Sign() < 0 || sg.S.Sign() < 0 {
+			return "err"
+		}
+		return fmt.Sprintf("ok %s %s", sg.R.String(), sg.S.String())
+	case "derenc":
+		r, ok1 := new(big.Int).SetString(t[2], 10)
+		s, ok2 := new(big.Int).SetString(t[3], 10)
+		if !ok1 || !ok2 {
+			return "bad-op"
+		}
+		enc, err := iecdsa.ASN1Encode(&iecdsa.Signature{R: r, S: s})
+		if err != nil {
+			return "err"
+		}
+		return hlib.Tok(enc)
+	}
+	return "bad-op"
+}
+
+func replay(o *hlib.Out, path string) {
+	f, err := os.Open(path)
+	if err != nil {
+		panic(err)
+	}
+	defer f.Close()
+	sc := bufio.NewScanner(f)
+	sc.Buffer(make([]byte, 1<<20), 1<<28)
+	for sc.Scan() {
+		l := strings.TrimSpace(sc.Text())
+		if l == "" {
+			continue
+		}
+		if strings.HasPrefix(l, "#") {
+			if strings.HasPrefix(l, "# case") {
+				o.Case()
+			}
+			continue
+		}
+		o.Emit(l, evalLine(l), true)
+		o.Count("replay")
+	}
+}
 
 func main() {
-	o := hlib.Open("c03")
+	o := hlib.Open("C03")
 	defer o.Close()
-	o.Emit("G slhtoint 0102", "258", true)
-	o.Emit("G derenc 5 300", "30070201050202012c", true)
+	gOut = o
+	seed := *hlib.FlagSeed
+	rand.Reader = &detRand{main: hlib.NewRng(seed, "c03-rand"), single: hlib.NewRng(seed, "c03-rand-1")}
+	if *hlib.FlagReplay != "" {
+		replay(o, *hlib.FlagReplay)
+		return
+	}
+	h := &harness{o: o, rng: hlib.NewRng(seed, "c03")}
+	mats := []*rsaMat{newRSA(2048), newRSA(3072)}
+	h.derCodec()
+	h.ecdsaAll()
+	h.ed25519All()
+	h.rsaAll(mats)
+	h.pssSaltZero(mats)
 }
